@@ -315,8 +315,13 @@ def _limits(mem_gb):
     return f
 
 
+DEADLINE_AT = None   # absolute time after which no verifier process of this check may still run
+
+
 def run_cmd(cmd, cwd, env, timeout, mem_gb=None):
     t0 = time.time()
+    if DEADLINE_AT is not None:
+        timeout = max(1.0, min(timeout, DEADLINE_AT - t0))
     p = subprocess.Popen(cmd, cwd=cwd, env=env, stdout=subprocess.PIPE, stderr=subprocess.STDOUT,
                          text=True, preexec_fn=_limits(mem_gb))
     try:
@@ -510,7 +515,7 @@ def run_kani_ob(build, ob, playback=False):
     res = parse_kani(out)
     res.update({"id": ob["id"], "backend": ob["backend"], "seconds": round(dt, 1), "cmd": " ".join(cmd)})
     if to:
-        res["status"], res["reason"] = "undecided", "timeout after %ds" % (ob.get("timeout", 900) * scale)
+        res["status"], res["reason"] = "undecided", "timeout after %ds" % dt
     elif res["status"] == "undecided" and ("bad_alloc" in out or "Out of memory" in out or rc in (-9, 137)):
         res["reason"] = "memory limit"
     if res["status"] != "discharged":
